@@ -4,9 +4,14 @@ package referenceserver
 
 // c17-response: the real reference server (reference mode) on the simulated
 // network, HTTP/1.1 or h2c; a scripted plain net/http client sends one
-// well-formed unary or server-stream RPC (Connect, gRPC or gRPC-Web; proto or
-// JSON) whose response definition carries a generated raw_response, and
-// compares status, headers, trailers and body bytes with the definition.
+// well-formed RPC through any of the four procedures that can carry a response
+// definition (Unary, ServerStream, ClientStream with 1-3 request messages,
+// half-duplex BidiStream with 1-3 request messages; Connect, gRPC or gRPC-Web;
+// proto or JSON; with or without a timeout header) whose first request's
+// response definition carries a generated raw_response, and compares status,
+// headers, trailers and body bytes with the definition. A ClientStream /
+// BidiStream with ZERO request messages cannot ask for a raw response: there
+// the handler's ordinary (successful, empty) response must come back.
 
 import (
 	"bytes"
@@ -60,10 +65,18 @@ func c17GenTrailers(g *c17Gen, exclude map[string]bool) []c17Hdr {
 	return out
 }
 
+// c17GenZeroRequestStream enables the ClientStream / BidiStream shape without
+// any request message (no raw response can be requested).
+const c17GenZeroRequestStream = true
+
+var c17RPCs = []string{"Unary", "ServerStream", "ClientStream", "BidiStream"}
+
 type c17RespCase struct {
 	H2            bool
 	Protocol      int // 0 connect, 1 grpc, 2 grpc-web
-	Stream        bool
+	RPC           int // index into c17RPCs
+	NReq          int // request messages (1 for Unary / ServerStream; 0..3 for the client-streaming ones)
+	Timeout       bool
 	JSON          bool
 	HandlerFields bool
 	Status        uint32
@@ -91,7 +104,8 @@ func c17GenRespCase(g *c17Gen) *c17RespCase {
 	t := g.tape
 	c.H2 = t.Choose(2, "http-version") == 1
 	c.Protocol = t.Choose(3, "protocol")
-	c.Stream = t.Choose(2, "rpc") == 1
+	c.RPC = t.Choose(len(c17RPCs), "rpc")
+	c.NReq = 1
 	c.JSON = t.Bool(1, 4, "json")
 	c.HandlerFields = t.Bool(1, 2, "handler-fields")
 	c.Status = c17Statuses[t.Choose(len(c17Statuses), "status")]
@@ -112,8 +126,19 @@ func c17GenRespCase(g *c17Gen) *c17RespCase {
 	c.Trailers = c17GenTrailers(g, exclude)
 	c.Body = g.body("body")
 	c.NetSeed = t.Choose(1<<20, "netseed")
+	extra := t.Choose(3, "extra-request-messages")
+	zero := t.Bool(1, 8, "zero-request-messages")
+	c.Timeout = t.Bool(1, 3, "timeout-header")
+	if c.RPC >= 2 {
+		c.NReq = 1 + extra
+		if zero && c17GenZeroRequestStream {
+			c.NReq = 0
+		}
+	}
 	return c
 }
+
+func (c *c17RespCase) streaming() bool { return c.RPC != 0 }
 
 func (c *c17RespCase) raw() *conformancev1.RawHTTPResponse {
 	raw := &conformancev1.RawHTTPResponse{StatusCode: c.Status, Headers: c17ProtoHeaders(c.Headers), Trailers: c17ProtoHeaders(c.Trailers)}
@@ -129,63 +154,91 @@ func (c *c17RespCase) raw() *conformancev1.RawHTTPResponse {
 func (c *c17RespCase) sample() map[string]any {
 	return map[string]any{
 		"http": map[bool]string{false: "1.1", true: "2 (h2c)"}[c.H2], "protocol": []string{"connect", "grpc", "grpc-web"}[c.Protocol],
-		"rpc": map[bool]string{false: "Unary", true: "ServerStream"}[c.Stream], "json": c.JSON, "handler_fields_also_set": c.HandlerFields,
+		"rpc": c17RPCs[c.RPC], "request_messages": c.NReq, "timeout_header": c.Timeout, "json": c.JSON, "handler_fields_also_set": c.HandlerFields,
 		"status": c.Status, "headers": c17DescribeHeaders(c.Headers), "trailers": c17DescribeHeaders(c.Trailers), "body": c.Body.describe(),
 	}
 }
 
-// request builds the well-formed RPC request that carries the raw response.
+// request builds the well-formed RPC request that carries the raw response
+// in (the first of) its request message(s).
 func (c *c17RespCase) request(ctx context.Context, addr string) (*http.Request, error) {
 	raw := c.raw()
-	var msg proto.Message
-	method := "Unary"
-	if c.Stream {
-		method = "ServerStream"
-		def := &conformancev1.StreamResponseDefinition{RawResponse: raw}
-		if c.HandlerFields {
-			def.ResponseHeaders = []*conformancev1.Header{{Name: "x-handler-header", Value: []string{"from-handler"}}}
-			def.ResponseData = [][]byte{[]byte("HANDLER-DATA-1"), []byte("HANDLER-DATA-2")}
-			def.ResponseTrailers = []*conformancev1.Header{{Name: "x-handler-trailer", Value: []string{"from-handler"}}}
-		}
-		msg = &conformancev1.ServerStreamRequest{ResponseDefinition: def}
-	} else {
+	handlerHeaders := []*conformancev1.Header{{Name: "x-handler-header", Value: []string{"from-handler"}}}
+	handlerTrailers := []*conformancev1.Header{{Name: "x-handler-trailer", Value: []string{"from-handler"}}}
+	unaryDef := func() *conformancev1.UnaryResponseDefinition {
 		def := &conformancev1.UnaryResponseDefinition{RawResponse: raw}
 		if c.HandlerFields {
-			def.ResponseHeaders = []*conformancev1.Header{{Name: "x-handler-header", Value: []string{"from-handler"}}}
+			def.ResponseHeaders, def.ResponseTrailers = handlerHeaders, handlerTrailers
 			def.Response = &conformancev1.UnaryResponseDefinition_ResponseData{ResponseData: []byte("HANDLER-DATA-1")}
-			def.ResponseTrailers = []*conformancev1.Header{{Name: "x-handler-trailer", Value: []string{"from-handler"}}}
 		}
-		msg = &conformancev1.UnaryRequest{ResponseDefinition: def}
+		return def
 	}
-	var data []byte
-	var err error
+	streamDef := func() *conformancev1.StreamResponseDefinition {
+		def := &conformancev1.StreamResponseDefinition{RawResponse: raw}
+		if c.HandlerFields {
+			def.ResponseHeaders, def.ResponseTrailers = handlerHeaders, handlerTrailers
+			def.ResponseData = [][]byte{[]byte("HANDLER-DATA-1"), []byte("HANDLER-DATA-2")}
+		}
+		return def
+	}
+	var msgs []proto.Message
+	for i := 0; i < c.NReq; i++ {
+		extra := []byte(fmt.Sprintf("EXTRA-REQUEST-%d", i))
+		switch c.RPC {
+		case 0:
+			msgs = append(msgs, &conformancev1.UnaryRequest{ResponseDefinition: unaryDef()})
+		case 1:
+			msgs = append(msgs, &conformancev1.ServerStreamRequest{ResponseDefinition: streamDef()})
+		case 2:
+			m := &conformancev1.ClientStreamRequest{RequestData: extra}
+			if i == 0 {
+				m = &conformancev1.ClientStreamRequest{ResponseDefinition: unaryDef()}
+			}
+			msgs = append(msgs, m)
+		default:
+			m := &conformancev1.BidiStreamRequest{RequestData: extra}
+			if i == 0 {
+				m = &conformancev1.BidiStreamRequest{ResponseDefinition: streamDef(), FullDuplex: false}
+			}
+			msgs = append(msgs, m)
+		}
+	}
 	codec := "proto"
 	if c.JSON {
 		codec = "json"
-		data, err = protojson.Marshal(msg)
-	} else {
-		data, err = proto.Marshal(msg)
 	}
-	if err != nil {
-		return nil, err
+	enveloped := c.Protocol != 0 || c.streaming()
+	var body []byte
+	for _, msg := range msgs {
+		var data []byte
+		var err error
+		if c.JSON {
+			data, err = protojson.Marshal(msg)
+		} else {
+			data, err = proto.Marshal(msg)
+		}
+		if err != nil {
+			return nil, err
+		}
+		if enveloped {
+			data = c17Envelope(0, data)
+		}
+		body = append(body, data...)
 	}
 	var contentType string
 	switch c.Protocol {
 	case 0:
-		if c.Stream {
+		if c.streaming() {
 			contentType = "application/connect+" + codec
-			data = c17Envelope(0, data)
 		} else {
 			contentType = "application/" + codec
 		}
 	case 1:
 		contentType = "application/grpc+" + codec
-		data = c17Envelope(0, data)
 	default:
 		contentType = "application/grpc-web+" + codec
-		data = c17Envelope(0, data)
 	}
-	req, err := http.NewRequestWithContext(ctx, http.MethodPost, "http://"+addr+"/connectrpc.conformance.v1.ConformanceService/"+method, bytes.NewReader(data))
+	req, err := http.NewRequestWithContext(ctx, http.MethodPost, "http://"+addr+"/connectrpc.conformance.v1.ConformanceService/"+c17RPCs[c.RPC], bytes.NewReader(body))
 	if err != nil {
 		return nil, err
 	}
@@ -193,8 +246,18 @@ func (c *c17RespCase) request(ctx context.Context, addr string) (*http.Request, 
 	switch c.Protocol {
 	case 0:
 		req.Header.Set("Connect-Protocol-Version", "1")
+		if c.Timeout {
+			req.Header.Set("Connect-Timeout-Ms", "20000")
+		}
 	case 1:
 		req.Header.Set("Te", "trailers")
+		if c.Timeout {
+			req.Header.Set("Grpc-Timeout", "20S")
+		}
+	default:
+		if c.Timeout {
+			req.Header.Set("Grpc-Timeout", "20000m")
+		}
 	}
 	req.Header.Set("X-Test-Case-Name", "C17/raw-response")
 	req.Header.Set("X-Expect-Http-Version", map[bool]string{false: "1", true: "2"}[c.H2])
@@ -280,15 +343,20 @@ func c17ResponseRun(t *testing.T, tape *simrt.Tape, o simwork.Opts) *simwork.Res
 	if len(res.Invalid) > 0 {
 		return res
 	}
-	c17JudgeResponse(c, obs, res)
+	if c.NReq == 0 {
+		c17JudgeOrdinary(c, obs, res)
+	} else {
+		c17JudgeResponse(c, obs, res)
+		c17ShapeProbes(c, res)
+	}
 	if v := c17CheckEncoders(&c.Body); v.Class != "" {
 		c17AddViolation(res, v.Class, "%s", v.Detail)
 	}
 
 	js, _ := json.Marshal(res.Sample)
 	res.LogHash = c17Hash("resp", string(js), c.NetSeed)
-	res.Nontrivial = len(c.Headers) > 0 || len(c.Trailers) > 0 || c.Body.Kind != 0
-	res.Cover = append(res.Cover, fmt.Sprintf("resp:h2=%v:proto=%d:stream=%v:json=%v:body=%d:status=%d", c.H2, c.Protocol, c.Stream, c.JSON, c.Body.Kind, c.Status))
+	res.Nontrivial = len(c.Headers) > 0 || len(c.Trailers) > 0 || c.Body.Kind != 0 || c.NReq == 0
+	res.Cover = append(res.Cover, fmt.Sprintf("resp:h2=%v:proto=%d:rpc=%s:nreq=%d:timeout=%v:json=%v:body=%d:status=%d", c.H2, c.Protocol, c17RPCs[c.RPC], c.NReq, c.Timeout, c.JSON, c.Body.Kind, c.Status))
 	if o.KeepLog {
 		res.Log = append(res.Log, "case: "+string(js))
 		res.Log = append(res.Log, fmt.Sprintf("observed: err=%q status=%d proto=%s transfer-encoding=%v content-length=%d body-err=%q", obs.Err, obs.Status, obs.Proto, obs.TE, obs.Length, obs.BodyErr))
@@ -444,5 +512,168 @@ func c17JudgeResponse(c *c17RespCase, obs *c17RespObs, res *simwork.Result) {
 				break
 			}
 		}
+	}
+}
+
+// c17ShapeProbes counts the request shapes through which a raw response was
+// asked for (only completed exchanges).
+func c17ShapeProbes(c *c17RespCase, res *simwork.Result) {
+	switch c.RPC {
+	case 2:
+		res.Probes["raw-via-client-stream"]++
+		if !c.H2 {
+			res.Probes["raw-via-client-stream-http1"]++
+		}
+	case 3:
+		if c.H2 {
+			res.Probes["raw-via-bidi-h2"]++
+		} else {
+			res.Probes["raw-via-bidi-http1"]++
+			if c.Timeout {
+				res.Probes["raw-via-bidi-http1-with-timeout-header"]++
+			}
+		}
+	}
+	if c.NReq > 1 {
+		res.Probes["raw-in-first-of-several-requests"]++
+	}
+	if c.Timeout {
+		res.Probes["request-with-timeout-header"]++
+	}
+}
+
+// c17SplitEnvelopes cuts a response body into its envelopes.
+func c17SplitEnvelopes(body []byte) (flags []byte, payloads [][]byte, err error) {
+	for len(body) > 0 {
+		if len(body) < 5 {
+			return flags, payloads, fmt.Errorf("%d stray bytes at the end", len(body))
+		}
+		n := int(uint32(body[1])<<24 | uint32(body[2])<<16 | uint32(body[3])<<8 | uint32(body[4]))
+		if n > len(body)-5 {
+			return flags, payloads, fmt.Errorf("envelope of %d bytes, only %d left", n, len(body)-5)
+		}
+		flags = append(flags, body[0])
+		payloads = append(payloads, body[5:5+n])
+		body = body[5+n:]
+	}
+	return flags, payloads, nil
+}
+
+// c17JudgeOrdinary judges the zero-request shape: no request message, hence
+// no response definition and no raw response; the first Receive of the raw
+// response recorder fails with EOF, which it has to hand on to the handler
+// unchanged. The handler then answers successfully: ClientStream with one
+// response whose payload reports zero requests, BidiStream with no response.
+func c17JudgeOrdinary(c *c17RespCase, obs *c17RespObs, res *simwork.Result) {
+	const class = "c17/ordinary-response"
+	if obs.Err != "" {
+		c17AddViolation(res, class, "zero request messages: no response: %s", obs.Err)
+		return
+	}
+	if obs.BodyErr != "" {
+		c17AddViolation(res, class, "zero request messages: body ended with an error after %d bytes: %s", len(obs.Body), obs.BodyErr)
+		return
+	}
+	codec := "proto"
+	if c.JSON {
+		codec = "json"
+	}
+	wantCT := []string{"application/connect+" + codec, "application/grpc+" + codec, "application/grpc-web+" + codec}[c.Protocol]
+	if obs.Status != 200 || obs.Header.Get("Content-Type") != wantCT {
+		c17AddViolation(res, class, "zero request messages: status %d content-type %q, the handler's ordinary response has 200 and %q", obs.Status, obs.Header.Get("Content-Type"), wantCT)
+		return
+	}
+	flags, payloads, err := c17SplitEnvelopes(obs.Body)
+	if err != nil {
+		c17AddViolation(res, class, "zero request messages: body is not a sequence of envelopes: %v: %s", err, c17Short(obs.Body))
+		return
+	}
+	var messages [][]byte
+	ended := ""
+	for i, f := range flags {
+		switch {
+		case f == 0:
+			messages = append(messages, payloads[i])
+		case c.Protocol == 0 && f == 2:
+			var end struct {
+				Error json.RawMessage `json:"error"`
+			}
+			if err := json.Unmarshal(payloads[i], &end); err != nil {
+				c17AddViolation(res, class, "zero request messages: end-stream message %q is not JSON: %v", payloads[i], err)
+				return
+			}
+			if len(end.Error) > 0 {
+				c17AddViolation(res, class, "zero request messages: the stream ended with an error instead of the handler's ordinary result: %s", payloads[i])
+				return
+			}
+			ended = "end-stream"
+		case c.Protocol == 2 && f == 0x80:
+			ended = "web-trailers"
+			status := ""
+			for _, line := range strings.Split(string(payloads[i]), "\r\n") {
+				if k, v, ok := strings.Cut(line, ":"); ok && strings.EqualFold(strings.TrimSpace(k), "grpc-status") {
+					status = strings.TrimSpace(v)
+				}
+			}
+			if status != "0" {
+				c17AddViolation(res, class, "zero request messages: grpc-web trailers %q: status %q instead of the handler's ordinary success", payloads[i], status)
+				return
+			}
+		default:
+			c17AddViolation(res, class, "zero request messages: unexpected envelope flags %d in the handler's response", f)
+			return
+		}
+	}
+	switch c.Protocol {
+	case 0:
+		if ended == "" {
+			c17AddViolation(res, class, "zero request messages: Connect stream without end-stream message: %s", c17Short(obs.Body))
+			return
+		}
+	case 1:
+		status := obs.Trailer.Get("Grpc-Status")
+		if status == "" {
+			status = obs.Header.Get("Grpc-Status")
+		}
+		if status != "0" {
+			c17AddViolation(res, class, "zero request messages: grpc-status %q (message %q) instead of the handler's ordinary success", status, obs.Trailer.Get("Grpc-Message")+obs.Header.Get("Grpc-Message"))
+			return
+		}
+	default:
+		if ended == "" && obs.Header.Get("Grpc-Status") != "0" {
+			c17AddViolation(res, class, "zero request messages: gRPC-Web response without trailers: %s", c17Short(obs.Body))
+			return
+		}
+	}
+	wantMessages := 0
+	if c.RPC == 2 {
+		wantMessages = 1
+	}
+	if len(messages) != wantMessages {
+		c17AddViolation(res, class, "zero request messages: %d response messages, the handler sends %d", len(messages), wantMessages)
+		return
+	}
+	if c.RPC == 2 {
+		out := &conformancev1.ClientStreamResponse{}
+		if c.JSON {
+			err = protojson.Unmarshal(messages[0], out)
+		} else {
+			err = proto.Unmarshal(messages[0], out)
+		}
+		if err != nil {
+			c17AddViolation(res, class, "zero request messages: response message does not decode: %v", err)
+			return
+		}
+		if n := len(out.GetPayload().GetRequestInfo().GetRequests()); n != 0 || out.GetPayload().GetRequestInfo() == nil || len(out.GetPayload().GetData()) != 0 {
+			c17AddViolation(res, class, "zero request messages: payload reports %d requests, data %q, request info present=%v; the handler's ordinary response echoes zero requests and no data", n, out.GetPayload().GetData(), out.GetPayload().GetRequestInfo() != nil)
+			return
+		}
+	}
+	res.Probes["zero-request-stream-ordinary-response"]++
+	if c.RPC == 3 && !c.H2 {
+		res.Probes["zero-request-bidi-http1"]++
+	}
+	if c.Timeout {
+		res.Probes["request-with-timeout-header"]++
 	}
 }
